@@ -1,4 +1,5 @@
 import Canopy.Gen.Exec
+import Canopy.Model.Atomic
 /-! Mechanism switches of the execution models, computed from the facts regenerated from `/repo`
 (`Gen/Exec.lean`). The models (`Model/Exec.lean`, `Model/Atomic.lean`) are parametric in these
 switches; the property theorems are stated for the switched-on mechanism and each switch is proved
@@ -36,5 +37,9 @@ def oversizeRestoresFact : Bool :=
 def precheckDiscardsFact : Bool :=
   preCheckBody.contains "checkTxn.Discard()" && preCheckBody.contains "s.SetStore(checkStore)" &&
   preCheckBody.contains "checkStore := s.Store().(lib.StoreI)"
+
+/-- the mechanism the source tree has: which restorations the extracted statements contain -/
+def cfgOfFacts : Cfg :=
+  ⟨failResetsCachesFact, failResetsEventsFact, failRestoresTrackerFact, failRestoresStoreFact, oversizeRestoresFact⟩
 
 end Canopy.Atomic
